@@ -293,3 +293,63 @@ def stmt_inner(s):
     if s.get("k") in ("Expr", "Semi"):
         return strip(s["e"])
     return None
+
+
+# ---------------------------------------------------------------- interprocedural helpers
+
+def local_callee_body(prog, call):
+    """Body of the function of the two crates that `call` (Call/MethodCall) resolves to, else None."""
+    p = callee(call)
+    if not p or not (p.startswith("spl_frontend") or p.startswith("lsp4spl")):
+        return None
+    return prog.body(p)
+
+
+def nodes_deep(prog, root, depth=2, _seen=None):
+    """Like nodes(root) but also descends into the bodies of local functions that are called (helpers extracted by a
+    refactoring are seen as if they were still inline)."""
+    if _seen is None:
+        _seen = set()
+    for n in nodes(root):
+        yield n
+        if depth > 0 and n.get("k") in ("Call", "MethodCall"):
+            b = local_callee_body(prog, n)
+            if b is not None and b["p"] not in _seen:
+                _seen.add(b["p"])
+                for x in nodes_deep(prog, b["body"], depth - 1, _seen):
+                    yield x
+
+
+def callers_map(prog, crate=None):
+    """callee path -> set of caller body paths (by resolved local callees, incl. function items used as values)."""
+    res = {}
+    for b in prog.bodies():
+        if crate and b["_crate"].name != crate:
+            continue
+        for n in nodes(b["body"]):
+            p = None
+            if n.get("k") in ("Call", "MethodCall"):
+                p = callee(n)
+            elif n.get("k") == "Path" and n["res"].get("k") == "Def" and n["res"].get("dk") in ("Fn", "AssocFn"):
+                p = n["res"].get("rp") or n["res"].get("p")
+            if p and (p.startswith("spl_frontend") or p.startswith("lsp4spl")):
+                res.setdefault(p, set()).add(b["p"])
+    return res
+
+
+def only_called_from(prog, path, allowed, cmap=None, _depth=0):
+    """True if every (transitive) caller chain of `path` ends in a function accepted by `allowed(body)`."""
+    if cmap is None:
+        cmap = callers_map(prog)
+    cs = cmap.get(path, set()) - {path}
+    if not cs or _depth > 4:
+        return False
+    for c in cs:
+        cb = prog.body(c)
+        if cb is None:
+            return False
+        if allowed(cb):
+            continue
+        if not only_called_from(prog, c, allowed, cmap, _depth + 1):
+            return False
+    return True
